@@ -44,6 +44,7 @@ ASSUME \A f \in ST, v \in Pairs : PrintT(<<"FN", "s", f.n, f.c, v, ApplyStar(f, 
 ASSUME \A c \in {1, 2, 7} :
           /\ PrintT(<<"FN", "e", "errcode", 0, ErrV(c), Apply(Fn("errcode", 0), ErrV(c))>>)
           /\ PrintT(<<"FN", "e", "errconst", 50, ErrV(c), Apply(Fn("errconst", 50), ErrV(c))>>)
+          /\ PrintT(<<"FN", "e", "errnone", 0, ErrV(c), Apply(Fn("errnone", 0), ErrV(c))>>)
 
 Init == x = 0
 Next == UNCHANGED x
